@@ -1,6 +1,6 @@
 (* Pinned statements of C06 (generated once by tools/mkpins.py from coq/props/C06.v, then committed). *)
 From DV Require Import Model.Base Model.Parser Model.Header Model.Readers Model.Uncompress Model.Compress
-  Spec.NameSpec Proofs.Hoare Proofs.CompressFrame Proofs.RenameSpec Proofs.CompressName Proofs.CompressSize props.C06.
+  Spec.NameSpec Proofs.Hoare Proofs.CompressFrame Proofs.RenameSpec Proofs.CompressName Proofs.CompressSize Proofs.PlainWf Proofs.CompressContent props.C06.
 Check (C06_header_kept : forall (p out : bytes),
   compress p = Ok out -> firstn 12 out = firstn 12 p /\ 12 <= length out).
 Print Assumptions C06_header_kept.
@@ -19,3 +19,20 @@ Print Assumptions C06_dictionary_comparison.
 Check (C06_succeeds_and_never_grows : forall p v, bytes_ok p -> parse p = Ok v -> uncompress p = Ok p ->
   exists out, compress p = Ok out /\ length out <= length p).
 Print Assumptions C06_succeeds_and_never_grows.
+Check (C06_reference_decoder_is_a_function : forall out o ls e ls' e', dec_in out o ls e -> dec_in out o ls' e' -> ls = ls' /\ e = e').
+Print Assumptions C06_reference_decoder_is_a_function.
+Check (C06_reference_decoder_reads_policy_names : forall p off ls e, bytes_ok p -> cname_l p off ls e -> dec_in p off ls e).
+Print Assumptions C06_reference_decoder_reads_policy_names.
+Check (C06_content : forall p v, bytes_ok p -> parse p = Ok v -> uncompress p = Ok p ->
+  exists out qls qt lxa lxn lxr X,
+    compress p = Ok out /\ bytes_ok out /\ reading p qls qt lxa lxn lxr /\
+    out = (firstn 12 p ++ wire_of_labels qls ++ firstn 4 (skipn (12 + length (wire_of_labels qls)) p)) ++ X /\
+    recs_enc p out (12 + length (wire_of_labels qls) + 4) (lxa ++ lxn ++ lxr) (length out)).
+Print Assumptions C06_content.
+Check (C06_same_message : forall p v out v', bytes_ok p -> parse p = Ok v -> uncompress p = Ok p ->
+  compress p = Ok out -> parse out = Ok v' ->
+  exists qls qt lxa lxn lxr lxa' lxn' lxr',
+    reading p qls qt lxa lxn lxr /\ reading out qls qt lxa' lxn' lxr' /\
+    Forall2 ci_rec lxa lxa' /\ Forall2 ci_rec lxn lxn' /\ Forall2 ci_rec lxr lxr' /\
+    uncompress out = Ok (plain_packet_of out qls qt lxa' lxn' lxr')).
+Print Assumptions C06_same_message.
